@@ -1,10 +1,400 @@
 import EpModel.Driver.Util
-/- `io.*` and `spec.io.*` operations (stub; filled in by the owner of this family). -/
-namespace EpModel.Driver.Io
-open EpModel EpModel.Driver
+import EpModel.Driver.EncLink
+import EpModel.Driver.EncNet
+import EpModel.Model.Io
+import EpModel.Model.IoBuild
+/- `io.*` operations (C16): fault injection on writers, readers, output slices and the
+   LimitedReader (same line formats as harness/src/io.rs).
 
-def run (op : String) (args : List String) : Option String :=
-  match op, args with
+   io.write.<t> <fields…> <k>      → <result>;w=<hex accepted by the writer>;post=0
+   io.wslice.<t> <fields…> <cap>   → <result>;buf=<hex of the cap bytes>;canary=intact
+   io.read.<t> [start] <hex> <k>   → <result>;used=<bytes handed out>;post=0
+   io.limited <hex> <k> <max> <src> <off> <layer> <op>…
+                                   → [<op>=<result>@(max_len,read_len,layer_offset,layer,src),…];pulled=<n>
+   io.build.write / io.build.wslice <path> <args…> <payload> <k|cap>
+   (`post`: calls made after the first failure — the model makes none by construction;
+    `canary`: bytes behind the slice — the model has no way to touch them) -/
+namespace EpModel.Driver.Io
+open EpModel EpModel.Driver EpModel.Io
+
+def hx (b : Bytes) : String := hexOfBytes b
+
+/-! ### values (the `enc.*` field lists; a value a checked constructor rejects is `bad-value`) -/
+
+def ofExcept {ε α : Type} : Option (Except ε α) → Option (Option α)
+  | none => none
+  | some (.ok a) => some (some a)
+  | some (.error _) => some none
+
+def commaList (s : String) : List String := s.splitOn ","
+
+/-- `none` or a comma separated field list -/
+def mkOpt {α : Type} (mk : List String → Option (Option α)) (s : String) : Option (Option (Option α)) :=
+  if s = "none" then some (some none)
+  else (mk (commaList s)).map fun v => v.map some
+
+def mkEth2 (a : List String) : Option (Option Codec.Eth2) := (EncLink.mkEth2 a).map some
+def mkVlan (a : List String) := ofExcept (EncLink.mkVlan a)
+def mkSll (a : List String) := ofExcept (EncLink.mkSll a)
+def mkMacsec (a : List String) := ofExcept (EncLink.mkMacsec a)
+def mkArp (a : List String) := ofExcept (EncLink.mkArp a)
+def mkUdp (a : List String) : Option (Option Codec.Udp) := (EncLink.mkUdp a).map some
+def mkTcp (a : List String) := ofExcept (EncLink.mkTcp a)
+def mkIcmp4 (a : List String) := ofExcept (EncLink.mkIcmp4 a)
+def mkIcmp6 (a : List String) := ofExcept (EncLink.mkIcmp6 a)
+def mkIpv6 (a : List String) := ofExcept (EncNet.ipv6Value a)
+def mkFrag (a : List String) := ofExcept (EncNet.fragValue a)
+def mkIpv4 (a : List String) := ofExcept (EncNet.ipv4Value a)
+def mkAuth (a : List String) := ofExcept (EncNet.authValue a)
+def mkRawExt (a : List String) := ofExcept (EncNet.rawExtValue a)
+
+def mkIpv4Exts : List String → Option (Option CodecNet.Ipv4Extensions)
+  | [auth] => (mkOpt mkAuth auth).map fun v => v.map fun a => { auth := a }
+  | _ => none
+
+def mkIpv6Exts : List String → Option (Option Ipv6Exts)
+  | [hbh, dst, rt, frag, auth, fdst] => do
+    let hbh ← mkOpt mkRawExt hbh
+    let dst ← mkOpt mkRawExt dst
+    let rt ← mkOpt mkRawExt rt
+    let frag ← mkOpt mkFrag frag
+    let auth ← mkOpt mkAuth auth
+    let fdst ← mkOpt mkRawExt fdst
+    pure (do
+      let hbh ← hbh; let dst ← dst; let rt ← rt; let frag ← frag; let auth ← auth; let fdst ← fdst
+      if rt.isNone ∧ fdst.isSome then none
+      else some { hbh := hbh, dst := dst, rt := rt.map fun r => (r, fdst), frag := frag, auth := auth })
+  | _ => none
+
+def mkIpHdrs : List String → Option (Option IpHdrs)
+  | ["v4", h, auth] => do
+    let h ← mkIpv4 (commaList h)
+    let e ← mkIpv4Exts [auth]
+    pure (do pure (.v4 (← h) (← e)))
+  | "v6" :: h :: rest => do
+    let h ← mkIpv6 (commaList h)
+    let e ← mkIpv6Exts rest
+    pure (do pure (.v6 (← h) (← e)))
+  | _ => none
+
+/-! ### result lines -/
+
+def showIpv4Walk : CodecNet.Ipv4ExtsWalkError → String
+  | .extNotReferenced m => s!"err(notreferenced({m}))"
+
+def showIpv6Walk : Ipv6WalkErr → String
+  | .hopByHopNotAtStart => "err(hbhnotatstart)"
+  | .extNotReferenced m => s!"err(notreferenced({m}))"
+  | .panicUnwrap => "panic"
+
+def showIpHdrsW : IpHdrsWErr → String
+  | .ipv4Exts e => showIpv4Walk e
+  | .ipv6Exts e => showIpv6Walk e
+
+def writeLine {ε : Type} (s : Ser ε) (shw : ε → String) (k : Nat) : String :=
+  let (w, r) := s.run (Writer.failingAt k)
+  let rs := match r with
+    | .ok () => "ok"
+    | .error (.io e) => e.render
+    | .error (.content c) => shw c
+  if rs = "panic" then "panic" else s!"{rs};w={hx w.out};post=0"
+
+def plainWrite (parts : List Bytes) (k : Nat) : String :=
+  writeLine (Ser.plain parts) (fun e => nomatch e) k
+
+/-- split the last argument off. -/
+def splitLast (args : List String) : Option (List String × String) :=
+  match args.reverse with
+  | [] => none
+  | l :: r => some (r.reverse, l)
+
+def simpleWrite {α : Type} (mk : List String → Option (Option α)) (parts : α → List Bytes)
+    (args : List String) : Option String := do
+  let (f, k) ← splitLast args
+  let k ← argNat k
+  match ← mk f with
+  | none => pure "bad-value"
+  | some h => pure (plainWrite (parts h) k)
+
+def fill : UInt8 := 0x5a
+
+def sliceLine (r : Bytes × Except SpaceErr Nat) : String :=
+  let rs := match r.2 with
+    | .ok rest => s!"ok(rest={rest})"
+    | .error e => e.render
+  s!"{rs};buf={hx r.1};canary=intact"
+
+/-! ### re-encoding of what a `read` gathered (`to_bytes()` of the returned header) -/
+
+def reLink {α : Type} (fromSlice : Bytes → Except Codec.Err (α × Bytes)) (toBytes : α → Bytes)
+    (b : Bytes) : String :=
+  match fromSlice b with
+  | .ok (h, _) => hx (toBytes h)
+  | .error _ => "model-gap"
+
+def reNet {ε α : Type} (fromSlice : Bytes → Except ε (α × Bytes)) (toBytes : α → Bytes)
+    (b : Bytes) : String :=
+  match fromSlice b with
+  | .ok (h, _) => hx (toBytes h)
+  | .error _ => "model-gap"
+
+open Codec CodecNet in
+def reKind : ExtKind → Bytes → String
+  | .frag, b => reNet Ipv6FragmentHeader.fromSlice Ipv6FragmentHeader.toBytes b
+  | .auth, b => reNet IpAuthHeader.fromSlice IpAuthHeader.toBytes b
+  | _, b => reNet Ipv6RawExtHeader.fromSlice Ipv6RawExtHeader.toBytes b
+
+def showExtsRead (e : Reads.ExtsRead) : String :=
+  let f (k : ExtKind) : String :=
+    match e.got.find? (fun p => p.1 == k) with
+    | none => "none"
+    | some (_, b) => reKind k b
+  s!"hbh={f .hbh},dst={f .dst},rt={f .rt},frag={f .frag},auth={f .auth},fdst={f .fdst}"
+
+def showAuthOpt : Option Bytes → String
+  | none => "auth=none"
+  | some b => s!"auth={reKind .auth b}"
+
+def readLine {α : Type} (p : RProg α) (shw : α → String) (d : Bytes) (k : Nat) : String :=
+  let (r, res) := p.run { data := d, pos := 0, failAt := some k }
+  let rs := match res with
+    | .ok a => shw a
+    | .error e => e.render
+  s!"{rs};used={r.pos};post=0"
+
+def simpleRead (p : RProg Bytes) (re : Bytes → String) : List String → Option String
+  | [d, k] => do
+    let d ← argHex d; let k ← argNat k
+    pure (readLine p (fun b => s!"ok({re b})") d k)
+  | _ => none
+
+/-! ### LimitedReader sessions -/
+
+def knownLayer (s : String) : Bool :=
+  ["Ethernet2Header", "Ipv4Header", "Ipv4Packet", "IpAuthHeader", "Ipv6Header", "Ipv6ExtHeader",
+   "Ipv6FragHeader", "UdpHeader", "TcpHeader"].contains s
+def knownSrc (s : String) : Bool :=
+  ["Slice", "Ipv4HeaderTotalLen", "Ipv6HeaderPayloadLen", "UdpHeaderLen", "TcpHeaderLen"].contains s
+
+def splitOp (op : String) : String × String :=
+  match op.splitOn ":" with
+  | [n] => (n, "")
+  | n :: rest => (n, ":".intercalate rest)
+  | [] => ("", "")
+
+def okBytes (f : Bytes → String) : LProg Bytes → LProg String
+  | p => p.bind fun b => .done (.ok s!"ok({f b})")
+
+/-- one session op as a limited read program that yields the result text. -/
+def opProg (op : String) : Option (LProg String) :=
+  match splitOp op with
+  | ("read", n) => do
+    let n ← argNat n
+    pure (okBytes hx (.read n fun b => .done (.ok b)))
+  | ("start", l) => if knownLayer l then some (.start l (.done (.ok "ok"))) else none
+  | ("auth", "") => some (okBytes (reKind .auth) LReads.auth)
+  | ("frag", "") => some (okBytes (reKind .frag) LReads.ipv6frag)
+  | ("rawext", "") => some (okBytes (reKind .hbh) LReads.rawext)
+  | ("ipv4exts", s) => do
+    let s ← EncLink.argU8 s
+    pure ((LReads.ipv4exts s).bind fun (a, next) => .done (.ok s!"ok({showAuthOpt a},next={next})"))
+  | ("ipv6exts", s) => do
+    let s ← EncLink.argU8 s
+    pure ((LReads.ipv6exts s).bind fun e => .done (.ok s!"ok({showExtsRead e},next={e.next})"))
+  | _ => none
+
+def runOps : List (String × LProg String) → Limited → List String → Limited × List String
+  | [], l, acc => (l, acc.reverse)
+  | (op, p) :: rest, l, acc =>
+    let (l', r) := p.run l
+    let rs := match r with
+      | .ok s => s
+      | .error e => e.render
+    runOps rest l'
+      (s!"{op}={rs}@({l'.maxLen},{l'.readLen},{l'.layerOffset},{l'.layer},{l'.lenSource})" :: acc)
+
+def limited : List String → Option String
+  | d :: k :: mx :: src :: off :: layer :: ops => do
+    let d ← argHex d; let k ← argNat k; let mx ← argNat mx; let off ← argNat off
+    if ¬ knownSrc src ∨ ¬ knownLayer layer then none
+    else
+      let progs ← ops.mapM fun op => (opProg op).map fun p => (op, p)
+      let l0 := Limited.new { data := d, pos := 0, failAt := some k } mx src off layer
+      let (l, outs) := runOps progs l0 []
+      if l.panicked then pure "panic"
+      else pure s!"[{",".intercalate outs}];pulled={l.inner.pos}"
+  | _ => none
+
+/-! ### PacketBuilder paths -/
+
+open EpModel.Io.Build in
+/-- `<path> <args…>` → the packet description (`none`: unknown path, `some none`: a checked
+    constructor rejects a value) -/
+def mkPacket (path : String) (a : List String) (payload : Bytes) : Option (Option Packet) :=
+  let hexN := EncLink.argHexN
+  let u8 := EncLink.argU8
+  let u16 := EncLink.argU16
+  let u32 := EncLink.argU32
+  match path, a with
+  | "e4u", [s, d, isrc, idst, ttl, sp, dp] => do
+    pure (some { link := .eth2 (← hexN 6 s) (← hexN 6 d), vlan := .none,
+                 net := .v4 (← hexN 4 isrc) (← hexN 4 idst) (← u8 ttl), tp := .udp (← u16 sp) (← u16 dp),
+                 payload := payload })
+  | "ev6u", [s, d, vid, isrc, idst, hop, sp, dp] => do
+    let vid ← u16 vid
+    let pk : Packet := { link := .eth2 (← hexN 6 s) (← hexN 6 d), vlan := (.single vid),
+                            net := .v6 (← hexN 16 isrc) (← hexN 16 idst) (← u8 hop), tp := .udp (← u16 sp) (← u16 dp),
+                            payload := payload }
+    pure (if vid > 4095 then none else some pk)
+  | "4t", [isrc, idst, ttl, sp, dp, seq, win] => do
+    pure (some { link := .none, vlan := .none, net := .v4 (← hexN 4 isrc) (← hexN 4 idst) (← u8 ttl),
+                 tp := .tcp (← u16 sp) (← u16 dp) (← u32 seq) (← u16 win), payload := payload })
+  | "edd4i", [s, d, outer, inner, isrc, idst, ttl, eid, eseq] => do
+    let o ← u16 outer; let i ← u16 inner
+    let pk : Packet := { link := .eth2 (← hexN 6 s) (← hexN 6 d), vlan := (.double o i),
+                            net := .v4 (← hexN 4 isrc) (← hexN 4 idst) (← u8 ttl),
+                            tp := .icmp4echo (← u16 eid) (← u16 eseq), payload := payload }
+    pure (if o > 4095 ∨ i > 4095 then none else some pk)
+  | "6i6", [isrc, idst, hop, eid, eseq] => do
+    pure (some { link := .none, vlan := .none, net := .v6 (← hexN 16 isrc) (← hexN 16 idst) (← u8 hop),
+                 tp := .icmp6echo (← u16 eid) (← u16 eseq), payload := payload })
+  | "e4i6", [s, d, isrc, idst, ttl, eid, eseq] => do
+    pure (some { link := .eth2 (← hexN 6 s) (← hexN 6 d), vlan := .none,
+                 net := .v4 (← hexN 4 isrc) (← hexN 4 idst) (← u8 ttl),
+                 tp := .icmp6echo (← u16 eid) (← u16 eseq), payload := payload })
+  | "earp", s :: d :: rest => do
+    if ¬ payload.isEmpty then none
+    else
+      let src ← hexN 6 s; let dst ← hexN 6 d
+      match ← mkArp rest with
+      | none => pure none
+      | some arp => pure (some { link := .eth2 src dst, vlan := .none, net := (.arp arp), tp := .none,
+                                 payload := payload })
   | _, _ => none
+
+def buildOp (slice : Bool) (args : List String) : Option String := do
+  let (a, n) ← splitLast args
+  let n ← argNat n
+  let (a, payload) ← splitLast a
+  let payload ← argHex payload
+  match a with
+  | [] => none
+  | path :: a =>
+    match ← mkPacket path a payload with
+    | none => pure "bad-value"
+    | some pk =>
+      if slice then
+        let (buf, r) := Build.writeToSlice pk (List.replicate n fill)
+        let rs := match r with
+          | .ok m => s!"ok(n={m})"
+          | .error (.space m) => s!"err(space({m}))"
+          | .error (.content c) => c
+        pure s!"{rs};buf={hx buf};canary=intact"
+      else pure (writeLine (Build.ser pk) id n)
+
+/-! ### dispatch -/
+
+open Codec CodecNet in
+def run (op : String) (args : List String) : Option String :=
+  match op with
+  -- writers
+  | "io.write.eth2" => simpleWrite mkEth2 Parts.eth2 args
+  | "io.write.vlan" => simpleWrite mkVlan Parts.vlan args
+  | "io.write.sll" => simpleWrite mkSll Parts.sll args
+  | "io.write.macsec" => simpleWrite mkMacsec Parts.macsec args
+  | "io.write.arp" => simpleWrite mkArp Parts.arp args
+  | "io.write.ipv4" => simpleWrite mkIpv4 Parts.ipv4 args
+  | "io.write.ipv4raw" => simpleWrite mkIpv4 Parts.ipv4raw args
+  | "io.write.ipv6" => simpleWrite mkIpv6 Parts.ipv6 args
+  | "io.write.ipv6frag" => simpleWrite mkFrag Parts.ipv6frag args
+  | "io.write.rawext" => simpleWrite mkRawExt Parts.rawext args
+  | "io.write.auth" => simpleWrite mkAuth Parts.auth args
+  | "io.write.udp" => simpleWrite mkUdp Parts.udp args
+  | "io.write.tcp" => simpleWrite mkTcp Parts.tcp args
+  | "io.write.icmpv4" => simpleWrite mkIcmp4 Parts.icmpv4 args
+  | "io.write.icmpv6" => simpleWrite mkIcmp6 Parts.icmpv6 args
+  | "io.write.ipv4exts" => do
+    let (f, k) ← splitLast args
+    let k ← argNat k
+    match f with
+    | start :: f =>
+      let start ← EncLink.argU8 start
+      match ← mkIpv4Exts f with
+      | none => pure "bad-value"
+      | some e => pure (writeLine (Parts.ipv4exts e start) showIpv4Walk k)
+    | [] => none
+  | "io.write.ipv6exts" => do
+    let (f, k) ← splitLast args
+    let k ← argNat k
+    match f with
+    | start :: f =>
+      let start ← EncLink.argU8 start
+      match ← mkIpv6Exts f with
+      | none => pure "bad-value"
+      | some e => pure (writeLine (e.ser start) showIpv6Walk k)
+    | [] => none
+  | "io.write.ipheaders" => do
+    let (f, k) ← splitLast args
+    let k ← argNat k
+    match ← mkIpHdrs f with
+    | none => pure "bad-value"
+    | some h => pure (writeLine h.ser showIpHdrsW k)
+  -- slice writers
+  | "io.wslice.eth2" => do
+    let (f, c) ← splitLast args
+    let c ← argNat c
+    match ← mkEth2 f with
+    | none => pure "bad-value"
+    | some h => pure (sliceLine (eth2WriteToSlice h (List.replicate c fill)))
+  | "io.wslice.sll" => do
+    let (f, c) ← splitLast args
+    let c ← argNat c
+    match ← mkSll f with
+    | none => pure "bad-value"
+    | some h => pure (sliceLine (sllWriteToSlice h (List.replicate c fill)))
+  -- readers
+  | "io.read.eth2" => simpleRead Reads.eth2 (reLink Eth2.fromSlice Eth2.toBytes) args
+  | "io.read.vlan" => simpleRead Reads.vlan (reLink Vlan.fromSlice Vlan.toBytes) args
+  | "io.read.sll" => simpleRead Reads.sll (reLink Sll.fromSlice Sll.toBytes) args
+  | "io.read.macsec" => simpleRead Reads.macsec (reLink Macsec.fromSlice Macsec.toBytes) args
+  | "io.read.arp" => simpleRead Reads.arp (reLink Arp.fromSlice Arp.toBytes) args
+  | "io.read.ipv4" => simpleRead Reads.ipv4 (reNet Ipv4Header.fromSlice Ipv4Header.toBytes) args
+  | "io.read.ipv6" => simpleRead Reads.ipv6 (reNet Ipv6Header.fromSlice Ipv6Header.toBytes) args
+  | "io.read.ipv6frag" => simpleRead Reads.ipv6frag (reKind .frag) args
+  | "io.read.rawext" => simpleRead Reads.rawext (reKind .hbh) args
+  | "io.read.auth" => simpleRead Reads.auth (reKind .auth) args
+  | "io.read.udp" => simpleRead Reads.udp (reLink Udp.fromSlice Udp.toBytes) args
+  | "io.read.tcp" => simpleRead Reads.tcp (reLink Tcp.fromSlice Tcp.toBytes) args
+  | "io.read.icmpv4" => simpleRead Reads.icmpv4 (reLink Icmp4.fromSlice Icmp4.toBytes) args
+  | "io.read.icmpv6" => simpleRead Reads.icmpv6 (reLink Icmp6.fromSlice Icmp6.toBytes) args
+  | "io.read.ipv4exts" =>
+    match args with
+    | [s, d, k] => do
+      let s ← EncLink.argU8 s; let d ← argHex d; let k ← argNat k
+      pure (readLine (Reads.ipv4exts s) (fun (a, next) => s!"ok({showAuthOpt a},next={next})") d k)
+    | _ => none
+  | "io.read.ipv6exts" =>
+    match args with
+    | [s, d, k] => do
+      let s ← EncLink.argU8 s; let d ← argHex d; let k ← argNat k
+      pure (readLine (Reads.ipv6exts s) (fun e => s!"ok({showExtsRead e},next={e.next})") d k)
+    | _ => none
+  | "io.read.ipheaders" =>
+    match args with
+    | [d, k] => do
+      let d ← argHex d; let k ← argNat k
+      let (r, res) := ipHeadersRead { data := d, pos := 0, failAt := some k }
+      let rs := match res with
+        | .ok (.v4 h a next) =>
+          s!"ok(v4(h={reNet Ipv4Header.fromSlice Ipv4Header.toBytes h},{showAuthOpt a}),next={next})"
+        | .ok (.v6 h e) =>
+          s!"ok(v6(h={reNet Ipv6Header.fromSlice Ipv6Header.toBytes h},{showExtsRead e}),next={e.next})"
+        | .error e => e.render
+      if rs = "panic" then pure "panic" else pure s!"{rs};used={r.pos};post=0"
+    | _ => none
+  | "io.limited" => limited args
+  | "io.build.write" => buildOp false args
+  | "io.build.wslice" => buildOp true args
+  | _ => none
 
 end EpModel.Driver.Io
